@@ -114,6 +114,30 @@ theorem sf_reflect_invariant (f : G → ℂ) (hreal : ∀ g, conj (f g) = f g) (
   rw [h, ← sf_real_symm f hreal ψ]
   congr 1
 
+/-- the permutation of the wave vectors induced by a symmetry `σ` of the grid: `ψ ↦ ψ ∘ σ⁻¹` -/
+noncomputable def dualEquiv (σ : G ≃+ G) : AddChar G ℂ ≃ AddChar G ℂ where
+  toFun ψ := ψ.compAddMonoidHom σ.symm.toAddMonoidHom
+  invFun ψ := ψ.compAddMonoidHom σ.toAddMonoidHom
+  left_inv ψ := by ext g; simp
+  right_inv ψ := by ext g; simp
+
+/-- **The structure factor as a multiset of (wave number, value) pairs is unchanged under every symmetry of the grid that preserves the
+wave numbers** — reflections (`fftRep_neg`: `|k|` of `ψ⁻¹` equals that of `ψ`) and axis permutations together with the grid: the pairs are
+the same, listed in another order.  This is the form in which the property states the invariance (the arrays returned are sorted by
+nothing in particular). -/
+theorem sf_multiset_invariant (f : G → ℂ) (σ : G ≃+ G) (kmag : AddChar G ℂ → ℝ)
+    (hk : ∀ ψ : AddChar G ℂ, kmag (ψ.compAddMonoidHom σ.symm.toAddMonoidHom) = kmag ψ) :
+    (Finset.univ : Finset (AddChar G ℂ)).val.map (fun ψ => (kmag ψ, sf (fun g => f (σ g)) ψ)) =
+    (Finset.univ : Finset (AddChar G ℂ)).val.map (fun ψ => (kmag ψ, sf f ψ)) := by
+  have h1 : ∀ ψ, (kmag ψ, sf (fun g => f (σ g)) ψ) = (fun χ => (kmag χ, sf f χ)) (dualEquiv σ ψ) := by
+    intro ψ
+    simp only [dualEquiv, Equiv.coe_fn_mk, sf_comp_equiv, hk]
+  have h2 : (Finset.univ : Finset (AddChar G ℂ)).val.map (fun ψ => (kmag ψ, sf (fun g => f (σ g)) ψ)) =
+      ((Finset.univ : Finset (AddChar G ℂ)).val.map (dualEquiv σ)).map (fun χ => (kmag χ, sf f χ)) := by
+    rw [Multiset.map_map]
+    exact Multiset.map_congr rfl (fun ψ _ => h1 ψ)
+  rw [h2, Multiset.map_univ_val_equiv (dualEquiv σ)]
+
 /-- Plancherel: the squared moduli of all Fourier coefficients add up to `N · Σ|f|²` -/
 theorem parseval (f : G → ℂ) : ∑ ψ : AddChar G ℂ, ‖dft f ψ‖ ^ 2 = (Fintype.card G : ℝ) * energy f := by
   have key : ∑ ψ : AddChar G ℂ, dft f ψ * conj (dft f ψ) = (Fintype.card G : ℂ) * energyC f := by
